@@ -154,6 +154,33 @@ def extra_u5_bounded(which):
     return part
 
 
+def witness_u8(v, tier):
+    out, err = _replay(['u8', 'find'])
+    if out and out.get('found'):
+        w = out['witness']
+        return {'found': True, 'witness': w, 'real': out['real'], 'tried': out['tried'],
+                'replay_args': ['u8', 'replay', json.dumps(w)]}
+    return {'found': False, 'tried': (out or {}).get('tried'), 'note': err}
+
+
+def extra_c14_bounded(prop, tier, seed):
+    """Bounded (labelled): error kinds of validate_json_from_str / validate_cbor_from_slice on 18 fixed cases
+    (malformed document / malformed schema / non-conforming / conforming) on the real code."""
+    out, err = _replay(['u8', 'find'])
+    if out is None:
+        raise engine.Undecided('replay-failed', err)
+    res = {'violations': [], 'bounded': [{'check': 'error kinds of the two public validation entry points', 'bound': '18 fixed cases',
+                                          'found': out.get('found')}]}
+    if out.get('found'):
+        res['violations'].append({
+            'unit': 'U8', 'label': 'entry-points:error-kinds-distinguishable', 'fn': 'validate_cbor_from_slice / validate_json_from_str',
+            'message': 'a validation entry point reports a failure through the wrong error kind', 'clause': [], 'engine': 'replay',
+            'verifier_output': json.dumps(out),
+            'fixed_witness': {'found': True, 'witness': out['witness'], 'real': out.get('real'),
+                              'replay_args': ['u8', 'replay', json.dumps(out['witness'])]}})
+    return res
+
+
 def witness_u2(v, tier):
     out, err = _replay(['u2', 'find'])
     if out and out.get('found'):
@@ -355,7 +382,38 @@ def extra_c20(prop, tier, seed):
     return res
 
 
+def extra_c15_bounded(prop, tier, seed):
+    """Bounded stand-in (labelled, never counted): the Position the REAL parser reports for every rejected
+    document made of <= n tokens out of 12 (multi-byte text, comments, CRLF, emoji): index inside the input on
+    a character boundary, range well-formed, line/column those of the index (recomputed independently)."""
+    n = '5' if tier == 'thorough' else '4'
+    out, err = _replay(['u3', 'findpos', n])
+    if out is None:
+        raise engine.Undecided('replay-failed', err)
+    res = {'violations': [], 'bounded': [{'check': 'reported parse-error Position (index, range, line, column) of the real parser',
+                                          'bound': '%s tokens out of 12' % n, 'documents': out.get('tried'), 'found': out.get('found')}]}
+    if out.get('found'):
+        res['violations'].append({
+            'unit': 'U3', 'label': 'convert_pest_error:position-consistent', 'fn': 'convert_pest_error',
+            'message': 'the reported position of a rejected document is inconsistent', 'clause': [], 'engine': 'replay',
+            'verifier_output': json.dumps(out),
+            'fixed_witness': {'found': True, 'witness': out['witness'], 'real': out.get('real'),
+                              'replay_args': ['u3', 'replaypos', json.dumps(out['witness'])]}})
+    return res
+
+
 PROPS = {
+    'C14': {
+        'vx': ['U8'],
+        'extra': [extra_c14_bounded],
+        'witness': witness_u8,
+        'technique': 'Verus postconditions on mechanically extracted fragments (R7) of the two validate() tails and on cbor_decode_error, over the real error types',
+        'level_text': 'First sentence of C14 only, at the points where the result is constructed: the tail of JSONValidator::validate and of CBORValidator::validate returns Err(Validation(list)) only with a non-empty list, Ok only when no error was recorded, and reports recorded errors; the mapping of CBOR decoder errors (cbor_decode_error) never yields the CDDLParsing or Validation kind (found F8: a malformed CBOR document was reported as CDDLParsing - fixed). That the early returns of the visitor run (`?`) carry non-Validation kinds, the JSON locations, determinism and concurrency are not decided; a fixed set of 18 API-level cases is replayed on the real code (bounded, labelled).',
+        'level_note': 'Trusted: Verus+Z3, vstd Vec::clone/is_empty specs; the error enums are the real ones from the cddl rlib (transparent), their payload types opaque. Unverified: everything in validate() before the tail, Error::from_validator (one-element list by inspection), validate_json_from_str, the wasm variants.',
+        'design_ref': 'DESIGN.md 4 U8',
+        'scope': 'result construction in json.rs / cbor.rs validate() and decoder-error mapping in validator/mod.rs',
+        'assumptions': [],
+    },
     'C10': {
         'vx': ['U6'],
         'extra': [extra_c10_bounded],
@@ -455,13 +513,14 @@ PROPS = {
     },
     'C15': {
         'vx': ['U3'],
+        'extra': [extra_c15_bounded],
         'witness': witness_u3,
         'scope': 'rejected-document half of C15: compute_error_range/scan_token_end/scan_token_start return a '
                  'range inside the input, non-inverted, on UTF-8 character boundaries, starting at or before '
                  'the reported index, for every input text and every boundary index. NOT covered: line/column '
                  'recomputation in convert_pest_error, and every AST span of accepted documents (pest pair spans).',
         'technique': 'Verus function contracts + loop invariants on the real functions (mechanical extraction), witness replay on the real code',
-        'level_text': 'Deductive proof (Verus/Z3, no bound on input length or loop iterations) that the three real functions computing the highlighted range of a parse error return a range inside the input, non-inverted, with both ends on UTF-8 character boundaries and starting at or before the reported index; termination and absence of index/overflow panics included. This is the rejected-document half of C15; the AST-span half is produced by pest and is not decided.',
+        'level_text': 'Deductive proof (Verus/Z3, no bound on input length or loop iterations) that the three real functions computing the highlighted range of a parse error return a range inside the input, non-inverted, with both ends on UTF-8 character boundaries and starting at or before the reported index; termination and absence of index/overflow panics included. This is the rejected-document half of C15; line/column recomputation in convert_pest_error is iterator code outside Verus and is covered only by a bounded stand-in on the real parser (labelled, not counted); the AST-span half is produced by pest and is not decided.',
         'level_note': 'Trusted: Verus+Z3; vstd spec of str::as_bytes; assumed contracts for u8::is_ascii_whitespace/is_ascii_alphanumeric; axiom that the bytes of a &str contain no stray continuation byte (str type invariant). Unverified: convert_pest_error (caller; supplies index on a char boundary), line/column recomputation, all AST spans.',
         'design_ref': 'DESIGN.md 4 U3',
         'assumptions': ['pest reports error positions on character boundaries inside the input (precondition of '
@@ -473,5 +532,4 @@ PROPS = {
 # properties whose check is not built yet (kept in MANIFEST.not_applicable until it is)
 PENDING = {
     'C12': 'check not built yet: stretch unit U4',
-    'C14': 'check not built yet: stretch unit U8',
 }
